@@ -160,6 +160,57 @@ class Session:
         self.c.calls.append({"fn": "KeyBlock.kbpk=", "args": [enc_b(k)], "entropy": "", "stream": "tr31", "session": True})
         return self._finish(r, f"hist.setkbpk\t{enc_b(k)}", lambda v: "n")
 
+    def _state_check(self, r, what):
+        """the model's state after the primitive steps just sent must be the implementation's state now (checked through a
+        state-returning no-op: re-assigning the same KBPK)"""
+        st = enc_header(self.kb.header)
+        self.c.line(f"hist.setkbpk\t{enc_b(self.kbpk)}", "ok\tn\t" + st, "tr31")
+        self.c.calls.append({"fn": "Blocks." + what, "args": [], "entropy": "", "stream": "tr31", "session": True})
+        return r
+
+    def update(self, pairs):
+        """`blocks.update(dict)` - inherited mapping method = `__setitem__` per item, stopping at the first that raises.
+        Only the last pair may be invalid (the harness cannot see how far the implementation got otherwise)."""
+        r = call_impl(self.kb.header.blocks.update, (dict(pairs),), stream="tr31")
+        for k, v in pairs:
+            self.c.line(f"hist.setblock\t{enc_s(k)}\t{enc_s(v)}", None, "tr31")
+        if not r.ok and r.err != "tr31":
+            self.c.fail(f"blocks.update escaped as {r.err}")
+        return self._state_check(r, "update")
+
+    def setdefault(self, k, v):
+        present = k in list(self.kb.header.blocks)
+        old = self.kb.header.blocks[k] if present else None
+        r = call_impl(self.kb.header.blocks.setdefault, (k, v), stream="tr31")
+        if not present:
+            self.c.line(f"hist.setblock\t{enc_s(k)}\t{enc_s(v)}", None, "tr31")
+        if r.ok and r.value != (old if present else v):
+            self.c.fail(f"blocks.setdefault returned {r.value!r}")
+        if not r.ok and r.err != "tr31":
+            self.c.fail(f"blocks.setdefault escaped as {r.err}")
+        return self._state_check(r, "setdefault")
+
+    def pop(self, k):
+        present = k in list(self.kb.header.blocks)
+        old = self.kb.header.blocks[k] if present else None
+        r = call_impl(self.kb.header.blocks.pop, (k,), stream="tr31")
+        if present:
+            self.c.line(f"hist.delblock\t{enc_s(k)}", None, "tr31")
+            if not r.ok or r.value != old:
+                self.c.fail("blocks.pop of a present id did not return its data")
+        elif r.ok or not isinstance(r.exc, KeyError):
+            self.c.fail("blocks.pop of an absent id did not raise KeyError")
+        return self._state_check(r, "pop")
+
+    def clear(self):
+        ids = list(self.kb.header.blocks)
+        r = call_impl(self.kb.header.blocks.clear, (), stream="tr31")
+        for k in ids:
+            self.c.line(f"hist.delblock\t{enc_s(k)}", None, "tr31")
+        if not r.ok:
+            self.c.fail(f"blocks.clear raised {r.err}")
+        return self._state_check(r, "clear")
+
     def accessors(self):
         """read-only accessors of the mapping and of the key block object, judged against the visible state (implementation only)"""
         h = self.kb.header
